@@ -35,6 +35,7 @@ type WorkerResult struct {
 	SampleCh   []int
 	PackSize   int
 	PackDone   int
+	OracleEvals map[string]int
 }
 
 type WViolation struct {
@@ -307,6 +308,7 @@ func main() {
 		}
 		workerProp = *prop
 		r := runWorker(sc, *bound, *budget, *noprune)
+		r.OracleEvals = oracleEvals
 		b, _ := json.Marshal(r)
 		fmt.Println("RESULT " + string(b))
 		if os.Getenv("BPX_MEMSTATS") != "" {
@@ -525,7 +527,11 @@ func parent(prop, tier, filter string, boundOverride int, budget time.Duration, 
 	notes := map[string]int{}
 	os.MkdirAll(replayDir, 0o755)
 	nviol := 0
+	evals := map[string]int{}
 	for _, r := range results {
+		for k, v := range r.OracleEvals {
+			evals[k] += v
+		}
 		execs += r.Stats.Executions
 		complete += r.Stats.Complete
 		cut += r.Stats.Cut
@@ -613,6 +619,7 @@ func parent(prop, tier, filter string, boundOverride int, budget time.Duration, 
 				"step_caps_hit":                 stepcaps,
 				"exhaustive":                    exhaustive && stepcaps == 0,
 				"race_pass":                     readRacePass(),
+				"oracle_evaluations":            evals,
 				"explanation":                   "stateless model checking of the real batch processor (sources rewritten syntactically onto the vs scheduler); states = distinct Mazurkiewicz-trace fingerprints at choice points, transitions = scheduler steps, traces_validated_against_impl = executions of the implementation (there is no separate model)",
 			},
 			"assumptions": []string{
